@@ -147,6 +147,9 @@ func runC18(c *Ctx) {
 		c.OnlyCalledFrom("channels are created with FillDefaults", `^\(lib/p2p/conn\.ChannelDescriptor\)\.FillDefaults$`, 1, `^lib/p2p/conn\.(newChannel|NewMConnectionWithConfig)$`)
 	}
 
+	// a block part with an out-of-range index or a proof for another slot is rejected (imported from C13)
+	addPartRules(c)
+
 	// ---- reactors: decode -> validate -> use ---------------------------------------------------------
 	stop := CallTo(`^\(\*lib/p2p\.Switch\)\.StopPeerForError$`, "")
 	if fn := c.Fn("consensus", "ConsensusManager", "Receive"); fn != nil {
@@ -325,6 +328,11 @@ func runC18(c *Ctx) {
 	c.OnlyWrittenIn("lib/common", "BitArray", "Bits", 1, `^lib/common\.NewBitArray$`, `^\(\*lib/common\.BitArray\)\.(FromProto|UnmarshalJSON|copy|copyBits|Copy)$`)
 	c.OnlyWrittenIn("lib/common", "BitArray", "Elems", 1, `^lib/common\.NewBitArray$`, `^\(\*lib/common\.BitArray\)\.(FromProto|UnmarshalJSON|copy|copyBits|Copy|setIndex|Sub|Or|And|Not|not|and|sub|Update)$`)
 	c.OnlyCalledFrom("BitArray.FromProto only from the consensus message decoder", `^\(\*lib/common\.BitArray\)\.FromProto$`, 3, `^consensus\.MsgFromProto$`)
+
+	// ---- constant indexing of input slices (signatures, keys, frames) ----------------------------------------
+	// scope: the signature / key handling every peer-supplied vote, proposal and commit signature goes through
+	c.ConstIndexGuarded([]string{"lib/crypto"}, `.`, map[string]string{})
+	c.Floors["Z"] = 1
 
 	// ---- possibly-nil last commit ------------------------------------------------------------------------
 	c.lastCommitNil()
